@@ -39,7 +39,7 @@ ASSUMPTIONS = [
     "projection inputs have a predicted far field >= 0.5 (the mixed-state code adds eps=1e-9 and maps exact zeros of the prediction to zero); measured amplitudes contain exact zeros; in situ the mixed-state projection is judged where the predicted amplitude is >= 1e-3",
     "the amplitudes produced by the projection are read in the detector layout, i.e. through DetectorPixelated.forward (zero frequency at n//2), the layout of the measured data",
     "with a non-trivial dset.detector_mask the projected amplitudes are compared with the measured ones only where the mask is 1 (read in the detector layout); on the unchanged tree the projection ignores the mask, an implementation that leaves excluded pixels at their predicted values satisfies the same check",
-    "per-pixel adjoint identity: |sum_patches(P)[p] - float64 sum of the patch values extracted from p| <= tol * sum of their magnitudes (1e-4 for 32-bit, 1e-10 for 64-bit patches; measured 1.2e-7 / 2e-16), pixels no patch covers are exactly zero",
+    "per-pixel adjoint identity: |sum_patches(P)[p] - float64 sum of the patch values extracted from p| <= tol * sum of their magnitudes (1e-4 for 32-bit, 1e-10 for 64-bit patches; measured 4.4e-7 / 0), pixels no patch covers are exactly zero",
     "process-global torch state is varied only around the operator calls (scenes are built in the default state) and always restored; in situ only use_deterministic_algorithms(True) is used",
     "in-situ events whose inputs are not finite (optimiser diverged) are counted, not judged; pure-phase conservation is judged with apply_fov_mask and identical_slices off",
 ]
